@@ -357,6 +357,10 @@ def cli_cases(repo):
     l6[6] = "    InFieldNames = [R1, R1]"
     l6.insert(8, "X = Sum(InFieldNames = [R1, R1], Bogus = 1)")
     cases.append({"mode": "cli", "files": {"input.csv": CSV}, "source": "\r\n".join(l6) + "\r\n", "label": "crlf-undeclared", "mark": [l6[8]]})
+    # characters that str.splitlines() treats as line boundaries but the lexer does not (form feed, vertical tab, U+2028, NEL ...)
+    l8 = ["# section one \x0c continued", "R1 = EEMSRead(InFileName = input.csv, InFieldName = a)", "# note: \x0b tab \u2028 sep \x85 nel \x1c fs",
+          "S = Sum(InFieldNames = [R1, R1], Metadata = [note: \"a \x0b b\"])", "", "T = Summ(InFieldNames = [S, S])"]
+    cases.append({"mode": "cli", "files": {"input.csv": CSV}, "source": "\n".join(l8) + "\n", "label": "odd-separators-before-error", "mark": [l8[5]]})
     cases.append({"mode": "cli", "files": {}, "source": "", "no_file": True, "label": "no-such-file", "stderr_has": ["Problem", "Solution"]})
     cases.append({"mode": "cli", "files": {"input.csv": CSV}, "source": "R1 = EEMSRead(InFileName = input.csv, InFieldName = a\n", "label": "syntax-error",
                   "syntax": True})
